@@ -244,7 +244,7 @@ Section Roundtrip.
     rewrite parse_uint10_print by (change (2 ^ 8) with 256; lia).
     change (parse_cigar [42]) with (@Ok (list Z) []). cbn [obind].
     rewrite mate_back by assumption. cbn [obind].
-    change (beq [42] [42]) with true. cbn [negb obind Z.eqb zlen length Z.of_nat andb parse_auxes].
+    unfold parse_seq_field, parse_qual_field. change (beq [42] [42]) with true. cbn [negb obind Z.eqb zlen length Z.of_nat andb parse_auxes].
     unfold core_of. repeat f_equal; rewrite s64_id; lia.
   Qed.
 
